@@ -59,6 +59,8 @@ pub enum Mutation {
     Truncate(u16),
     Xor { pos: u16, xor: u8 },
     Extend(Vec<u8>),
+    /// the other wire representation (payload compressed / decompressed), same content
+    Recode,
 }
 
 #[derive(Clone, Debug, Hash, Serialize, Deserialize)]
@@ -109,6 +111,7 @@ fn mutation_strategy() -> BoxedStrategy<Option<Mutation>> {
             any::<u16>().prop_map(Mutation::Truncate),
             (any::<u16>(), 1u8..=255).prop_map(|(pos, xor)| Mutation::Xor { pos, xor }),
             proptest::collection::vec(any::<u8>(), 1..8).prop_map(Mutation::Extend),
+            Just(Mutation::Recode),
         ],
     )
     .boxed()
@@ -200,7 +203,7 @@ fn apply_token(choice: &TokenChoice, agreed: [u8; 4]) -> Option<[u8; 4]> {
     Some(t)
 }
 
-fn mutate(mut d: Vec<u8>, m: &Option<Mutation>) -> Vec<u8> {
+fn mutate(mut d: Vec<u8>, m: &Option<Mutation>, is7: bool) -> Vec<u8> {
     match m {
         None => {}
         Some(Mutation::Truncate(k)) => {
@@ -214,6 +217,11 @@ fn mutate(mut d: Vec<u8>, m: &Option<Mutation>) -> Vec<u8> {
             }
         }
         Some(Mutation::Extend(e)) => d.extend_from_slice(e),
+        Some(Mutation::Recode) => {
+            if let Some(alt) = crate::c06_reader_total::recode(&d, is7) {
+                d = alt;
+            }
+        }
     }
     d
 }
@@ -297,7 +305,7 @@ fn build_foreign<P: Proto>(f: &Foreign, agreed: [u8; 4], e_ack: u16, e_seq: u16,
                 };
                 Packet::Connected(ConnectedPacket { ack, token: tok, type_ }).write(&mut out[..]).ok()?.to_vec()
             };
-            Some(mutate(d, mutation))
+            Some(mutate(d, mutation, P::IS7))
         }
         Foreign::Replayed { idx, token, mutation } => {
             if peer_history.is_empty() {
@@ -330,7 +338,7 @@ fn build_foreign<P: Proto>(f: &Foreign, agreed: [u8; 4], e_ack: u16, e_seq: u16,
                     Packet::Connless(_) => return None,
                 }
             };
-            Some(mutate(d, mutation))
+            Some(mutate(d, mutation, P::IS7))
         }
     }
 }
